@@ -385,7 +385,8 @@ impl BufferRef {
         if cap == 0 {
             return;
         }
-        self.cap = (cap as u32).min(self.full_cap);
+        // Clamp before narrowing: `cap as u32` would turn 1 << 32 into 0.
+        self.cap = cap.min(self.full_cap as usize) as u32;
         self.len = self.len.min(self.cap);
     }
 }
@@ -415,7 +416,7 @@ impl IoBuf for BufferRef {
 impl SetLen for BufferRef {
     unsafe fn set_len(&mut self, len: usize) {
         debug_assert!(len <= u32::MAX as usize);
-        self.len = (len as u32).min(self.cap);
+        self.len = len.min(self.cap as usize) as u32;
     }
 }
 
